@@ -25,7 +25,7 @@ ASSUMPTIONS = [
     "the unit's DTRs hold stale 0xA5 before every run, so a missing or late DTR load is visible",
 ]
 CHAIN_STRIDE = {'quick': 3, 'thorough': 20}      # every k-th shard is re-run in chains inside one process (non-initial process states)
-BOUNDS = {"quick": "values with both bytes in {0,1,0x7F,0x80,0xFE,0xFF} + every 13th value (5 042); all selectors; all 64 short addresses and 16 groups on 3 values", "thorough": "all 65 536 values for set (4 destinations), limit (4 selectors) and the Tc query selector; all 65 536 values for every one of the 73 query selectors"}
+BOUNDS = {"quick": "values with both bytes in {0,1,0x7F,0x80,0xFE,0xFF} + every 13th value (5 042); all selectors; all 64 short addresses and 16 groups on 3 values, set and limit to 5 destination kinds (short, int, group, broadcast, broadcast-unaddressed)", "thorough": "all 65 536 values for set (4 destinations), limit (4 selectors) and the Tc query selector; all 65 536 values for every one of the 73 query selectors"}
 
 EDGE = [0x00, 0x01, 0x7F, 0x80, 0xFE, 0xFF]
 
